@@ -34,7 +34,7 @@ def sequences(alphabet, max_len):
             yield s
 
 
-MODES = [("plain", False), ("fresh", False), ("one", False), ("fresh", True), ("plain", True), ("one", True)]
+MODES = [("plain", False, False), ("fresh", False, True), ("one", False, False), ("fresh", True, False), ("plain", True, True), ("one", True, True), ("plain", False, True)]
 _SYM = []
 
 
@@ -64,12 +64,13 @@ def _sym_class():
     return _SYM[0]
 
 
-def to_expr(tree, atoms="plain", share=False, _memo=None, _one=None):
+def to_expr(tree, atoms="plain", share=False, bare=False, _memo=None, _one=None):
     """Tree -> codelimit Expression (a list whose items are atoms or Operators; concatenation is flattened,
     because expression_to_nfa treats a list nested in a list as an atom).
     atoms: 'plain' items | 'fresh' (an equal but distinct predicate object at every occurrence) | 'one' (one predicate
     object per letter, reused). share: identical sub-patterns are one and the same operator object, used at several
-    places of the pattern."""
+    places of the pattern. bare: an operand that is a single item or operator is handed to the enclosing operator as such,
+    not wrapped in a one-element list (the operators accept both; Union then sees every mix of list and bare operands)."""
     from codelimit.common.gsm.operator.OneOrMore import OneOrMore
     from codelimit.common.gsm.operator.Optional import Optional
     from codelimit.common.gsm.operator.Union import Union
@@ -87,10 +88,13 @@ def to_expr(tree, atoms="plain", share=False, _memo=None, _one=None):
             _one[tree[1]] = _sym_class()(tree[1])
         return [_one[tree[1]]]
     if t == "cat":
-        return to_expr(tree[1], atoms, share, _memo, _one) + to_expr(tree[2], atoms, share, _memo, _one)
+        return to_expr(tree[1], atoms, share, bare, _memo, _one) + to_expr(tree[2], atoms, share, bare, _memo, _one)
     if share and tree in _memo:
         return [_memo[tree]]
-    sub = lambda x: to_expr(x, atoms, share, _memo, _one)  # noqa: E731
+    def sub(x):
+        e = to_expr(x, atoms, share, bare, _memo, _one)
+        return e[0] if bare and len(e) == 1 else e
+
     if t == "alt":
         op = Union(sub(tree[1]), sub(tree[2]))
     elif t == "opt":
